@@ -77,7 +77,7 @@ def run_deferred(rep, tier):
     if r.violated:
         rep.violation("Deferred.tla: invariant %s violated on the specification" % r.violated,
                       {"engine": "deferred", "module": "checks_deferred", "tlc_tail": r.out[-3000:]})
-    rb = run_tlc("Deferred", os.path.join(SPEC, "MC_Deferred_noguard.cfg"), timeout=900)
+    rb = run_tlc("Deferred", os.path.join(SPEC, "MC_Deferred_noguard.cfg"), timeout=900, only="D_NoCtxAfterEnd")
     if rb.violated != "D_NoCtxAfterEnd":
         raise MachineryFailure("the sibling of Deferred.tla without the AlreadyFinished guard was not rejected (%r)" % rb.violated)
     # 2. specification -> code
